@@ -386,10 +386,33 @@ class Hugr(Mapping[Node, NodeData], Generic[OpVarCov]):
             sub_offset = next(
                 i for i, inp in enumerate(self.linked_ports(src)) if inp == dst
             )
-            self._links.delete_left(_SubPort(src, sub_offset))
         except StopIteration:
             return
-        # TODO make sure sub-offset is handled correctly
+        src_sub = _SubPort(src, sub_offset)
+        dst_sub = self._links.fwd[src_sub]
+        self._links.delete_left(src_sub)
+        # Keep the sub-offsets of both ports contiguous: the links of a port
+        # are enumerated up to the first unused sub-offset.
+        self._close_sub_offset_gap(src_sub)
+        self._close_sub_offset_gap(dst_sub)
+
+    def _close_sub_offset_gap(self, free: _SubPort) -> None:
+        """After the link at sub-port `free` was removed, shift the links at
+        higher sub-offsets of the same port down by one.
+        """
+        nxt = free.next_sub_offset()
+        if isinstance(free.port, OutPort):
+            while nxt in self._links.fwd:
+                other = self._links.fwd[nxt]
+                self._links.delete_left(nxt)
+                self._links.insert_left(free, other)
+                free, nxt = nxt, nxt.next_sub_offset()
+        else:
+            while nxt in self._links.bck:
+                other = self._links.bck[nxt]
+                self._links.delete_right(nxt)
+                self._links.insert_left(other, free)
+                free, nxt = nxt, nxt.next_sub_offset()
 
     def root_op(self) -> OpVarCov:
         """The operation of the root node.
